@@ -607,25 +607,31 @@ func (s *Module) AddMPTNodes(nodes [][]byte) error {
 		return fmt.Errorf("MPT nodes were not requested: current state sync stage is %d", s.syncStage)
 	}
 
+	// A bad node ends the batch, but the nodes restored before it can be the last
+	// ones the pool was waiting for: the completion check is made anyway.
+	var nodesErr error
 	for _, nBytes := range nodes {
 		var n mpt.NodeObject
 		r := io.NewBinReaderFromBuf(nBytes)
 		n.DecodeBinary(r) // we're OK with counting depth from 0 for every node, maintaining it for every node in pool is excessive.
 		if r.Err != nil {
-			return fmt.Errorf("failed to decode MPT node: %w", r.Err)
+			nodesErr = fmt.Errorf("failed to decode MPT node: %w", r.Err)
+			break
 		}
 		if typ := n.Node.Type(); typ == mpt.HashT || typ == mpt.EmptyT {
-			return fmt.Errorf("unexpected MPT node type %d", typ)
+			nodesErr = fmt.Errorf("unexpected MPT node type %d", typ)
+			break
 		}
 		// The hash of a node is the hash of its canonical form, where children are
 		// referenced by hashes. A node that carries its children inline has the same
 		// hash, but its children would never be requested, stored or counted.
 		if !bytes.HasPrefix(nBytes, n.Node.Bytes()) {
-			return errors.New("non-canonical encoding of MPT node")
+			nodesErr = errors.New("non-canonical encoding of MPT node")
+			break
 		}
-		err := s.restoreNode(n.Node)
-		if err != nil {
-			return err
+		nodesErr = s.restoreNode(n.Node)
+		if nodesErr != nil {
+			break
 		}
 	}
 	if s.mptpool.Count() == 0 {
@@ -640,7 +646,7 @@ func (s *Module) AddMPTNodes(nodes [][]byte) error {
 			zap.Uint32("blockHeight", s.blockHeight),
 		)
 	}
-	return nil
+	return nodesErr
 }
 
 // AddContractStorageItems adds a batch of key-value pairs for storage-based sync.
